@@ -398,4 +398,35 @@ theorem streak_run (j : Job) (rs : List Resp) (hd : statusDue j = true)
     congr 1
     omega
 
+/-! ### misc -/
+
+/-- the only exception a status read lets through is the error of the failed request itself -/
+theorem readStatus_exc (fixed : Bool) (j : Job) (r : Resp) (e : Exc)
+    (h : (readStatus fixed j r).2.1 = some e) : e = respExc r ∧ ∀ s m, r ≠ .status s m := by
+  unfold readStatus at h
+  split at h
+  · simp at h
+  · cases r with
+    | status s m => simp at h
+    | http c =>
+      simp only [handleErr] at h
+      refine ⟨?_, by simp⟩
+      split at h
+      · simpa [excOf, respExc, eq_comm] using h
+      · split at h
+        · simp at h
+        · simpa [excOf, respExc, eq_comm] using h
+    | conn =>
+      simp only [handleErr] at h
+      refine ⟨?_, by simp⟩
+      split at h
+      · simpa [excOf, respExc, eq_comm] using h
+      · simp at h
+
+theorem mem_readStatus_calls (fixed : Bool) (j : Job) (r : Resp) (c : Call)
+    (h : c ∈ (readStatus fixed j r).2.2) : c = .status j.id := by
+  rw [readStatus_calls] at h
+  split at h <;> simp at h
+  exact h
+
 end PM.C17
